@@ -2,6 +2,7 @@
 From Coq Require Import Reals List Permutation Lia Arith Bool.
 Import ListNotations.
 From PV.Gen Require Import HelixCode.
+From PV.Model Require Export Nest.
 
 Definition jac_obj atan2 r_in dr phi0 dz kappa tanl x0 y0 z0 x1 y1 z1 : list R :=
   let a f := f r_in dr phi0 dz kappa tanl x0 y0 z0 x1 y1 z1 in
@@ -29,108 +30,3 @@ Proof. rewrite map_app. cbn [map]. rewrite app_nth2; rewrite map_length; [|lia].
 Lemma perm_equivariant (T U : Type) (f : T -> U) (l l' : list T) : Permutation l l' -> Permutation (map f l) (map f l').
 Proof. apply Permutation_map. Qed.
 
-(* ------------------------------------------------------------------------------------------------------------ *)
-(* Layout model.  An Awkward array of tracks nested d levels deep = list of `nest` trees of uniform depth d.       *)
-Inductive nest (A : Type) : Type := Leaf (a : A) | Node (l : list (nest A)).
-Arguments Leaf {A} a. Arguments Node {A} l.
-
-Fixpoint nest_map {A B} (f : A -> B) (n : nest A) : nest B :=
-  match n with Leaf a => Leaf (f a) | Node l => Node (map (nest_map f) l) end.
-
-Definition kids {A} (n : nest A) : list (nest A) := match n with Node l => l | Leaf _ => [] end.
-Definition is_node {A} (n : nest A) : Prop := match n with Node _ => True | Leaf _ => False end.
-Definition is_leaf {A} (n : nest A) : Prop := match n with Leaf _ => True | Node _ => False end.
-Definition children {A} (xs : list (nest A)) : list (nest A) := concat (map kids xs).
-Definition counts_top {A} (xs : list (nest A)) : list nat := map (fun n => length (kids n)) xs.
-
-(* uniform depth d: d levels of lists above the tracks *)
-Fixpoint uniform {A} (d : nat) (xs : list (nest A)) : Prop :=
-  match d with
-  | O => Forall is_leaf xs
-  | S d' => Forall is_node xs /\ uniform d' (children xs)
-  end.
-
-(* _extract_index: per-level counts, outermost level first (offsets[1:] - offsets[:-1] of each ListOffsetArray level) *)
-Fixpoint extract_index {A} (d : nat) (xs : list (nest A)) : list (list nat) :=
-  match d with O => [] | S d' => counts_top xs :: extract_index d' (children xs) end.
-
-(* ak.flatten(axis=None): the tracks in layout order *)
-Fixpoint flat {A} (d : nat) (xs : list (nest A)) : list A :=
-  match d with
-  | O => concat (map (fun n => match n with Leaf a => [a] | Node _ => [] end) xs)
-  | S d' => flat d' (children xs)
-  end.
-
-(* ak.unflatten(array, counts) at axis 0; None models the ValueError when the counts do not fit *)
-Fixpoint group {B} (counts : list nat) (xs : list B) : option (list (list B)) :=
-  match counts with
-  | [] => match xs with [] => Some [] | _ => None end
-  | c :: cs => if length xs <? c then None
-               else match group cs (skipn c xs) with Some r => Some (firstn c xs :: r) | None => None end
-  end.
-Definition unflatten {A} (counts : list nat) (xs : list (nest A)) : option (list (nest A)) :=
-  match group counts xs with Some g => Some (map Node g) | None => None end.
-
-(* the rebuild loop: `for count in <counts list>: res = ak.unflatten(res, count)` *)
-Fixpoint rebuild {A} (levels : list (list nat)) (xs : list (nest A)) : option (list (nest A)) :=
-  match levels with [] => Some xs | c :: rest => match unflatten c xs with Some ys => rebuild rest ys | None => None end end.
-
-Lemma group_concat {B} (ls : list (list B)) : group (map (@length B) ls) (concat ls) = Some ls.
-Proof.
-  induction ls as [|l ls IH]; [reflexivity|]. cbn [map concat group].
-  rewrite app_length. destruct (Nat.ltb_spec (length l + length (concat ls)) (length l)); [lia|].
-  rewrite skipn_app, skipn_all, Nat.sub_diag. cbn [skipn app]. rewrite IH.
-  rewrite firstn_app, firstn_all, Nat.sub_diag. cbn [firstn]. rewrite app_nil_r. reflexivity.
-Qed.
-
-Lemma unflatten_children {A} (xs : list (nest A)) : Forall is_node xs ->
-  unflatten (counts_top xs) (children xs) = Some xs.
-Proof.
-  intro H. unfold unflatten, counts_top, children.
-  replace (map (fun n => length (kids n)) xs) with (map (@length (nest A)) (map kids xs)) by (rewrite map_map; reflexivity).
-  rewrite group_concat. f_equal. rewrite map_map.
-  induction H as [|x l Hx Hl IH]; [reflexivity|]. cbn [map]. rewrite IH. destruct x; [destruct Hx|reflexivity].
-Qed.
-
-Lemma rebuild_app {A} l1 l2 (xs : list (nest A)) :
-  rebuild (l1 ++ l2) xs = match rebuild l1 xs with Some ys => rebuild l2 ys | None => None end.
-Proof. revert xs. induction l1 as [|c l1 IH]; intro xs; [reflexivity|]. cbn [app rebuild]. destruct (unflatten c xs); [apply IH|reflexivity]. Qed.
-
-Lemma children_map {A B} (f : A -> B) (xs : list (nest A)) : children (map (nest_map f) xs) = map (nest_map f) (children xs).
-Proof.
-  unfold children. induction xs as [|x xs IH]; [reflexivity|]. cbn [map concat]. rewrite IH, map_app. f_equal.
-  destruct x; reflexivity.
-Qed.
-
-Lemma leaves_rebuild {A B} (f : A -> B) (xs : list (nest A)) : Forall is_leaf xs ->
-  map (@Leaf B) (map f (flat 0 xs)) = map (nest_map f) xs.
-Proof.
-  intro H. cbn [flat]. induction H as [|x l Hx Hl IH]; [reflexivity|].
-  destruct x as [a|l']; [|destruct Hx]. cbn [map concat app nest_map]. f_equal. exact IH.
-Qed.
-
-Lemma is_node_map {A B} (f : A -> B) (xs : list (nest A)) : Forall is_node xs -> Forall is_node (map (nest_map f) xs).
-Proof.
-  intro H. induction H as [|x l Hx Hl IH]; cbn [map].
-  - constructor.
-  - constructor; [destruct x; [destruct Hx | exact I] | exact IH].
-Qed.
-
-Lemma counts_top_map {A B} (f : A -> B) (xs : list (nest A)) : counts_top (map (nest_map f) xs) = counts_top xs.
-Proof. unfold counts_top. rewrite map_map. apply map_ext. intros [a|l]; cbn; [reflexivity|apply map_length]. Qed.
-
-Lemma layout_preserved (A B : Type) (f : A -> B) d : forall (xs : list (nest A)), uniform d xs ->
-  rebuild (rev (extract_index d xs)) (map (@Leaf B) (map f (flat d xs))) = Some (map (nest_map f) xs).
-Proof.
-  induction d as [|d IH]; intros xs H.
-  - cbn [extract_index rev rebuild]. f_equal. apply leaves_rebuild. exact H.
-  - destruct H as [Hn Hu]. cbn [extract_index rev flat]. rewrite rebuild_app, (IH _ Hu). cbn [rebuild].
-    rewrite <- children_map, <- (counts_top_map f). rewrite unflatten_children; [reflexivity|].
-    apply is_node_map. exact Hn.
-Qed.
-
-Lemma outermost_first_refuted : exists (xs : list (nest nat)), uniform 2 xs /\
-  rebuild (extract_index 2 xs) (map (@Leaf nat) (flat 2 xs)) = None.
-Proof.
-  exists [Node [Node [Leaf 1; Leaf 2]; Node []]; Node [Node [Leaf 3]]]%nat. split; [cbn; repeat (first [exact I | split | constructor]) | reflexivity].
-Qed.
